@@ -231,6 +231,26 @@ pub fn run(prop: &'static str, tier: Tier) -> ! {
     }
     families.push(json!({"family": format!("Sets({k1};{k2};{k3}) x token type variants"), "pattern_sets": n, "configurations": total.cfgs - before, "exhaustive": true}));
 
+    // 1b. thorough: one additional block of the pairs over G(4) x G(4), rotated by VERIF_SEED; the
+    // block is enumerated completely and reported as its own bound
+    if tier == Tier::Thorough {
+        let g4 = g_upto(4);
+        let total_pairs = g4.len() * g4.len();
+        let block = 2_000_000usize.min(total_pairs);
+        let start = (run.seed as usize).wrapping_mul(block) % total_pairs;
+        let accs = par_for(block, 512, || Acc { samples: Samples::new(1), ..Default::default() }, |acc, k| {
+            let idx = (start + k) % total_pairs;
+            let pats = [g4[idx / g4.len()].as_str(), g4[idx % g4.len()].as_str()];
+            let cfg = cfg_of(&pats, &[1, 0]);
+            let o = check_cfg(&cfg, &tables, do02, do03, do02, true);
+            absorb(acc, prop, &cfg, "G4-pairs-block", o);
+        });
+        for a in accs {
+            merge(&mut total, a);
+        }
+        families.push(json!({"family": "block of ordered pairs over G(4) x G(4) (token types reversed)", "block_start_index": start, "block_size": block, "of_total_pairs": total_pairs, "selected_by": "VERIF_SEED (rotation only; the block is enumerated completely)"}));
+    }
+
     // 2. lookahead automata
     let lk = match tier {
         Tier::Quick => 3,
@@ -350,7 +370,7 @@ pub fn run(prop: &'static str, tier: Tier) -> ! {
     let mut cov = Map::new();
     cov.insert("states".into(), json!(stats.states));
     cov.insert("transitions".into(), json!(stats.transitions));
-    cov.insert("traces_validated_against_impl".into(), json!(total.s02.traces_validated));
+    cov.insert("traces_validated_against_impl".into(), json!(if do02 { total.s02.traces_validated } else { total.s03.traces_validated }));
     cov.insert("samples".into(), json!(total.samples.items));
     cov.insert("evaluations".into(), json!(total.cfgs));
     cov.insert("distinct_nontrivial".into(), json!(total.nontrivial));
@@ -376,7 +396,7 @@ pub fn run(prop: &'static str, tier: Tier) -> ! {
             "the dump hook is validated by scanning every BFS witness with the real scanner (lookahead-free modes)",
         ]
     } else {
-        &["the recorder hook wraps the unchanged body of Minimizer::minimize; pairs are compared over the block alphabet of the final class registry"]
+        &["the recorder hook wraps the unchanged body of Minimizer::minimize; pairs are compared over the block alphabet of the final class registry", "traces_validated_against_impl counts the recorded minimizer outputs that appear verbatim in the automata dump of the built scanner (binding of the recorder to what the scanner uses)"]
     };
     run.finish("model_checking", cov, assumptions)
 }
